@@ -143,9 +143,15 @@ func c04run(c *hx.Ctx, cs c04case) error {
 	c.Line("new", "ok")
 	c.Line(c04cfgLine(cc), "ok")
 	full := new(big.Int).Add(cc.BlockReward, cc.FinalCommitteeReward)
-	fail := func(sig, detail string) { c.Fail(sig, detail, cs) }
+	cur := cs.Blocks
+	fail := func(sig, detail string) { // the replay is the history cut right after the failing block
+		rc := cs
+		rc.Blocks = cur
+		c.Fail(sig, detail, rc)
+	}
 	maxExcess := c.Rep.Coverage["max_epoch_payouts_minus_pool"]
 	for b := 1; b <= cs.Blocks; b++ {
+		cur = b
 		h.OfferTxs(b)
 		if r.Intn(3) == 0 {
 			pr.OfferConflicts(b)
@@ -153,11 +159,6 @@ func c04run(c *hx.Ctx, cs c04case) error {
 		chainfx.Advance(h.O.BlockStep)
 		if !n.IsEligibleProposer() {
 			c.Hit("history-ended:proposer-not-eligible")
-			if os.Getenv("C04_DEBUG") != "" {
-				id := n.App.State.GetIdentity(n.Addr)
-				fmt.Fprintf(os.Stderr, "DEBUG end b=%d height=%d epoch=%d period=%d godState=%d validated=%v online=%v onlineSize=%d penaltySec=%d delegatee=%v pending=%d\n", b, n.Chain.Head.Height(), n.App.State.Epoch(), n.App.State.ValidationPeriod(),
-					id.State, n.App.ValidatorsCache.IsValidated(n.Addr), n.App.ValidatorsCache.IsOnlineIdentity(n.Addr), n.App.ValidatorsCache.OnlineSize(), id.PenaltySeconds(), id.Delegatee(), len(n.Pool.GetPendingByAddress(n.Addr)))
-			}
 			break
 		}
 		before := n.Ledger()
@@ -275,6 +276,11 @@ func c04run(c *hx.Ctx, cs c04case) error {
 		}
 		for _, tx := range blk.Body.Transactions {
 			c.Hit(fmt.Sprintf("included-tx-type:%d", tx.Type))
+			if tx.Type == types.DeployContractTx || tx.Type == types.CallContractTx || tx.Type == types.TerminateContractTx {
+				if rc := n.Chain.GetReceipt(tx.Hash()); rc != nil {
+					c.Hit(fmt.Sprintf("contract-receipt:type-%d:success=%v", tx.Type, rc.Success))
+				}
+			}
 		}
 		c.Distinct(fmt.Sprintf("%d/%d", cs.Seed, blk.Height()))
 		// independent oracle
@@ -388,7 +394,7 @@ func init() {
 			c.Rep.Evaluations = 1
 			return c04run(c, wrap.Replay)
 		}
-		c.Rep.Rule = "real chain histories (god + 8..11 users, all ordinary tx kinds, conflict bundles, flips, validation ceremonies on a shrunk timeline => several validation-finishing blocks, injected empty blocks, failed validations, consensus v12 and v9); after every block: full iteration of the real ledger before/after, the block's txs alone through processTxs on a check state; distinct = blocks (seed/height)"
+		c.Rep.Rule = "real chain histories (god + 8..11 users, all ordinary tx kinds, real embedded contracts through the real VM in 2 of 3 histories (TimeLock / Multisig deploy, fund, transfer and push to the contract itself / the caller / another contract / users / fresh / zero address with part / all / more than the balance, strangers, locked, unknown methods, paid calls, terminate), conflict bundles, flips, validation ceremonies on a shrunk timeline => several validation-finishing blocks, injected empty blocks, failed validations, consensus v12 and v9); after every block: full iteration of the real ledger before/after, the block's txs alone through processTxs on a check state; distinct = blocks (seed/height)"
 		nh := c.Scale(24, 400)
 		for i := 0; i < nh; i++ {
 			cs := c04case{Seed: c.Seed*1000 + int64(i), Blocks: 240, Users: 8 + i%4, V9: i%4 == 3, Participate: 0.75, Contracts: i%3 != 2, Seasoned: i%6 != 5}
